@@ -4,6 +4,7 @@
 // unchanged, and a non-directive item stays a non-directive.  The config reference is not changed.
 impl<'a> VisitMutWith<BlockTransformVisitor<'a>> for Program {
     open spec fn vmc_req(self, v: BlockTransformVisitor<'a>) -> bool { true }
+    #[verifier::prophetic]
     open spec fn vmc_ens(self, v: BlockTransformVisitor<'a>, s2: Program, v2: BlockTransformVisitor<'a>) -> bool {
         &&& (self is Script <==> s2 is Script)
         &&& program_items(s2).len() == program_items(self).len()
@@ -16,7 +17,9 @@ impl<'a> VisitMutWith<BlockTransformVisitor<'a>> for Program {
     #[verifier::external_body]
     fn visit_mut_children_with(&mut self, v: &mut BlockTransformVisitor<'a>) { unimplemented!() }
     open spec fn vm_req(self, v: BlockTransformVisitor<'a>) -> bool { true }
+    #[verifier::prophetic]
     open spec fn vm_ens(self, v: BlockTransformVisitor<'a>, s2: Program, v2: BlockTransformVisitor<'a>) -> bool { true }
     #[verifier::external_body]
     fn visit_mut_with(&mut self, v: &mut BlockTransformVisitor<'a>) { unimplemented!() }
 }
+
